@@ -79,3 +79,39 @@ def run_thorough(prop, units, results, work):
         for f_ in flips:
             out['problems'].append('unstable proof (verdict differs between solver configurations): ' + f_)
     return out
+
+
+# Bounded stand-ins (thorough tier only, labelled bounded, never counted as proved): parts of a property that no contract within reach decides are
+# compared with an oracle on every graph with at most 4 nodes by the witness-search harness (replays/search/verif_search.rs) against the real code.
+BOUNDED_SEARCH = {
+    'C10': [('C10.scc.same_set_iff_mutually_reachable_bounded', 'components_oracle', 'src/algorithms/components/strong_connectivity.rs',
+             'component functions, breadth_first_search and bfs_equal_size_partitions against reachability by Floyd-Warshall')],
+    'C04': [('C04.dijkstra.reported_distances_are_minimal_bounded', 'sp_oracle', 'src/algorithms/shortest_path/dijkstra.rs',
+             'single_source (fast path and with paths) and all_pairs against the minimum walk length by Floyd-Warshall')],
+    'C08': [('C08.entry_points_agree_bounded', 'sp_oracle', 'src/algorithms/shortest_path/dijkstra.rs',
+             'all_pairs[x][y] and single_source(x)[y] both equal the Floyd-Warshall minimum, with and without paths')],
+    'C09': [('C09.degrees_agree_with_the_edge_list_bounded', 'counts_oracle', 'src/graph/degree.rs',
+             'node / edge counts, size(false), per-node degrees and the degree map against counts over the added edge list (handshake identities follow)')],
+}
+
+
+def bounded_search(prop, tier, work):
+    if tier != 'thorough' or prop not in BOUNDED_SEARCH or os.environ.get('VERIF_SEARCH', '1') == '0':
+        return []
+    from . import replay
+    out = []
+    for oid, group, where, what in BOUNDED_SEARCH[prop]:
+        w, cmd = replay._run_group(group, work)
+        tried = getattr(replay._run_group, 'last_tried', None)
+        bound = 'bounded: all graphs with <= 4 nodes (8 kinds, <= 5 edges for n <= 3, <= 3 edges for n = 4, unweighted and weights 1.0 / 0.0 / 2.5), %s' % what
+        if w:
+            out.append({'id': oid, 'harness': 'verif_search:' + group, 'strength': 'bounded', 'where': where, 'status': 'failed',
+                        'detail': '%s; witness: %s' % (bound, str(w)[:400]),
+                        'counterexample': {'replayed_against_real_function': True, 'witness': w, 'group': group, 'cmd': cmd}})
+        elif tried is None:
+            out.append({'id': oid, 'harness': 'verif_search:' + group, 'strength': 'bounded', 'where': where, 'status': 'skipped',
+                        'detail': 'the search harness did not build or did not finish: this bounded stand-in was not run (never an alarm)'})
+        else:
+            out.append({'id': oid, 'harness': 'verif_search:' + group, 'strength': 'bounded', 'where': where, 'status': 'discharged',
+                        'detail': '%s; %d comparisons, no disagreement' % (bound, tried)})
+    return out
